@@ -74,6 +74,15 @@ fn gen_writes(rng: &mut Rng64, profile: Profile, peer_rwnd: u32, big_ok: bool) -
             }
         }
     }
+    // now and then one very large write (an application handing over a whole file): around and beyond 1 MiB, plain or vectored
+    if big_ok && rng.chance(1, 120) {
+        let at = rng.below(v.len() as u64 + 1) as usize;
+        let op = match rng.below(4) {
+            0 => WOp::Vectored(vec![700_000, 0, 700_001]),
+            _ => WOp::Write(*rng.pick(&[1_048_576usize, 1_048_577, 2_500_000, 5_000_011])),
+        };
+        v.insert(at, op);
+    }
     v
 }
 
